@@ -60,7 +60,7 @@ KnownIds == {r.id : r \in KFTable}
 Covers(id, e, subj, o) ==
     \E r \in KFTable :
         /\ r.id = id
-        /\ subj.subject \in r.parsers
+        /\ subj.parser \in r.parsers
         /\ e.variant \in r.variants
         /\ e.kind \in r.kinds
         /\ o = r.outcome
